@@ -10,7 +10,7 @@ import re
 from concurrent.futures import ThreadPoolExecutor
 
 from vlib import core
-from translate import t_treeconsts, t_treeops
+from translate import t_treeconsts, t_treeops, t_treealgo
 
 HARNESS = 'c0809.py'
 KNOWN_SLOT_REUSE = 'reproduction:fitness[worst]=0:slot-reuse-with-nonpositive-fitness'
@@ -33,7 +33,16 @@ def regenerate(ctx):
     for er in errors2:
         ctx.oblige('T-treeops translation of %s' % er['item'], False, '%s:%s: %s' % (er['file'], er['line'], er['msg']))
     ctx.oblige('T-treeops translated %d operator bodies' % len(items2), not errors2)
-    return not errors and not errors2
+    # what the operators call in core/node.py (pre_order, find_node, n_nodes): Props/C08.v and C09.v prove the heap
+    # model's functions equal to the interpretation of these descriptions (Model/TreeHeapAlgoLink.v); post_order is
+    # not called by the operators and not referred to by those theorems
+    text3, _items3, errors3 = t_treealgo.generate(core.REPO)
+    core.write_if_changed(os.path.join(core.GEN, 'TreeAlgoDescr.v'), text3)
+    errors3 = [er for er in errors3 if er['item'] != 'post_order_descr']
+    for er in errors3:
+        ctx.oblige('T-treealgo translation of %s' % er['item'], False, '%s:%s: %s' % (er['file'], er['line'], er['msg']))
+    ctx.oblige('T-treealgo translated pre_order, find_node and _properties of core/node.py (called by the operators)', not errors3)
+    return not errors and not errors2 and not errors3
 
 
 # ---------------------------------------------------------------------------- Coq syntax
@@ -262,7 +271,7 @@ def run_common(ctx, pid, extra_allowed=()):
               'translator T-treeops (translate/t_treeops.py): pointer effects of _cross / _mutate / grow linking -> Gen/TreeOps.v '
               '(= the model descriptions by reflexivity; their interpretation = the model functions, proved)',
               'harness/c0809.py: graph serialiser, scripted randomness, independent WF/disjointness/slot oracle',
-              'hand-written model Model/TreeHeap.v: _cross, _mutate and the linking step of grow are tied by T-treeops + proof; find_node, deepcopy, the draw/selection part of grow, _reproduction, _mutation, _crossover, _evaluate by the correspondence run only',
+              'hand-written model Model/TreeHeap.v: _cross, _mutate, the linking step of grow, _reproduction, _mutation, _crossover, _prune_nodes and the selection part of grow are tied by T-treeops / T-treepop + proof; pre_order, find_node and n_nodes are proved equal, on every heap representing a tree, to the interpretation of the descriptions regenerated from core/node.py by T-treealgo (Model/TreeHeapAlgoLink.v); deepcopy, _evaluate and the tournament by the correspondence run only',
               'Model/TreeHeapSer.v: the serialiser and fixtures on the Coq side (unverified, executable)')
     regenerate(ctx)
     ok, log = ctx.build_props(extra_targets=['theories/Model/TreeHeapSer.vo', 'theories/Gen/TreeArity.vo', 'theories/Gen/TreeOps.vo'],
